@@ -48,8 +48,11 @@ func newC18World(c *sim.Case, n int, storeMode string, timeouts [][2]int) *c18Wo
 		f.idp.Keys = []*sim.Key{f.idp.SignKey}
 		f.idp.Tag = "Zq" + f.name
 		f.store = "memory"
-		if storeMode == "redis" || (storeMode == "mixed" && i%2 == 1) {
+		if storeMode == "redis" || storeMode == "redis-dbs" || (storeMode == "mixed" && i%2 == 1) {
 			f.store = "redis"
+		}
+		if storeMode == "redis-dbs" {
+			f.store = fmt.Sprintf("redis-db%d", i) // same server, a database of its own: configured to be separate
 		}
 		f.cfg = &oidcv1.OIDCConfig{
 			AuthorizationUri: f.idp.AuthURL(), TokenUri: f.idp.TokenURL(), CallbackUri: "https://app.test/cb-" + f.name,
@@ -61,6 +64,9 @@ func newC18World(c *sim.Case, n int, storeMode string, timeouts [][2]int) *c18Wo
 		}
 		if f.store == "redis" {
 			f.cfg.RedisSessionStoreConfig = &oidcv1.RedisConfig{ServerUri: "redis://" + mr.Addr()}
+		}
+		if strings.HasPrefix(f.store, "redis-db") {
+			f.cfg.RedisSessionStoreConfig = &oidcv1.RedisConfig{ServerUri: fmt.Sprintf("redis://%s/%d", mr.Addr(), i)}
 		}
 		full.Chains = append(full.Chains, &configv1.FilterChain{Name: f.name,
 			Match:   &configv1.Match{Header: "x-tenant", Criteria: &configv1.Match_Equality{Equality: f.name}},
@@ -142,7 +148,7 @@ func (w *c18World) login(f *c18Filter, user string) string {
 
 func c18Prop(c *sim.Case) {
 	n := 2 + sim.Pick(c, "nfilters", 2)
-	storeMode := sim.PickStr(c, "stores", "memory", "redis", "mixed")
+	storeMode := sim.PickStr(c, "stores", "memory", "redis", "mixed", "redis-dbs")
 	var timeouts [][2]int
 	for i := 0; i < n; i++ {
 		timeouts = append(timeouts, [2]int{sim.Pick(c, "abs", 4), sim.Pick(c, "idle", 4)})
@@ -175,6 +181,8 @@ func c18Prop(c *sim.Case) {
 			sig := "foreign-session-honoured"
 			if sameStore {
 				sig = "shared-store:renamed-cookie:" + A.store
+			} else {
+				sig = "foreign-session-honoured:" + A.store + "->" + B.store
 			}
 			who := "nobody"
 			if by != nil {
@@ -279,7 +287,6 @@ func c18Timeouts(c *sim.Case) {
 			all = append(all, s)
 		}
 	}
-	first := w.fs[0]
 	start := time.Now()
 	var wg sync.WaitGroup
 	for k := 0; k < slots; k++ {
@@ -299,8 +306,29 @@ func c18Timeouts(c *sim.Case) {
 				must := (abs == 0 || t1.Before(s.cLo.Add(abs-1500*time.Millisecond))) && (idle == 0 || t1.Before(s.uLo.Add(idle-1500*time.Millisecond)))
 				s.log = append(s.log, fmt.Sprintf("slot %d t=%.2fs -> %v (must=%v mustNot=%v)", k, t0.Sub(start).Seconds(), r, must, mustNot))
 				other := ""
-				if s.f != first && s.f.store == "memory" && first.store == "memory" && (first.abs != abs || first.idle != idle) {
-					other = ":memory-store:first-filter-timeouts"
+				// which filter's timeouts was this filter's store built with? (shared memory store: the first
+				// memory-backed filter; a Redis URI shared by several filters: the last one)
+				owner := s.f
+				if s.f.store == "memory" {
+					for _, g := range w.fs {
+						if g.store == "memory" {
+							owner = g
+							break
+						}
+					}
+				} else {
+					for _, g := range w.fs {
+						if g.store == s.f.store {
+							owner = g
+						}
+					}
+				}
+				if owner != s.f && (owner.abs != abs || owner.idle != idle) {
+					if s.f.store == "memory" {
+						other = ":memory-store:first-filter-timeouts"
+					} else {
+						other = ":redis-store:shared-uri-last-filter-timeouts"
+					}
 				}
 				switch {
 				case r.OK && mustNot:
@@ -340,7 +368,7 @@ func c18Timeouts(c *sim.Case) {
 func TestC18(t *testing.T) {
 	r := sim.NewRun(t, "C18")
 	defer r.Finish()
-	r.Rule = "configurations with 2-3 OIDC filters in separate chains (selected by a header), distinct cookie prefixes, providers with separate keys, client ids and (absolute, idle) timeouts in {0..3 s}^2, all on the shared memory store, all on one Redis, or mixed; assembled with the real session-store factory behind server.ExtAuthZFilter.Check. Histories: log in through filter A, then towards B: the same Cookie header, A's session id under B's cookie name, both cookies, A's pending id under B's name followed by B's own callback, B's own login and its id under A's name. Oracle: ghost map session id -> creating filter (an OK from B for an id not created through B is a violation; forwarded tokens must be B's provider's). Timeouts part (real time): three sessions per filter with drawn access timelines in 0.5 s slots, judged against the creating filter's own limits with 1-1.5 s margins. Non-trivial = a request to B carried an id minted by A under B's cookie name / a session was seen alive and expired; distinct = distinct (configuration, history)."
+	r.Rule = "configurations with 2-3 OIDC filters in separate chains (selected by a header), distinct cookie prefixes, providers with separate keys, client ids and (absolute, idle) timeouts in {0..3 s}^2, all on the shared memory store, all on one Redis URI, mixed, or each on its own database of one Redis server; assembled with the real session-store factory behind server.ExtAuthZFilter.Check. Histories: log in through filter A, then towards B: the same Cookie header, A's session id under B's cookie name, both cookies, A's pending id under B's name followed by B's own callback, B's own login and its id under A's name. Oracle: ghost map session id -> creating filter (an OK from B for an id not created through B is a violation; forwarded tokens must be B's provider's). Timeouts part (real time): three sessions per filter with drawn access timelines in 0.5 s slots, judged against the creating filter's own limits with 1-1.5 s margins. Non-trivial = a request to B carried an id minted by A under B's cookie name / a session was seen alive and expired; distinct = distinct (configuration, history)."
 	r.Assumptions = []string{"real-time margins: must-not beyond limit + 1 s, must within limit - 1.5 s"}
 	parts := map[string]func(*sim.Case){"isolation": c18Prop, "timeouts": c18Timeouts}
 	if r.Replay != "" {
